@@ -180,8 +180,8 @@ def run(chk):
     chk.rule("R09.2", "interpolated points keep the ephemeris' frame and form; cache follows the points")
     chk.rule("R09.3", "Lagrange window arithmetic (integer term algebra) and basis shape")
     chk.rule("R09.4", "linear formula and bracket search")
-    r09_1(chk)
-    r09_2(chk)
-    r09_3(chk)
-    r09_4(chk)
+    chk.guard(r09_1, chk)
+    chk.guard(r09_2, chk)
+    chk.guard(r09_3, chk)
+    chk.guard(r09_4, chk)
     chk.assume("slice semantics: xs[a:b] is clipped to the table; order = 2⌊o/2⌋ + (o mod 2)")
